@@ -689,6 +689,18 @@ type Violation struct {
 	Desc    string
 	Choices []int
 	Outcome string
+	// Conflicts: the racy-access sites that were scheduling points when the schedule was found (a choice list
+	// only replays against the same set: sites are discovered round by round)
+	Conflicts []string
+}
+
+// ConflictSet turns the Conflicts of a stored violation back into the argument of RunOnce.
+func ConflictSet(sites []string) map[string]bool {
+	m := map[string]bool{}
+	for _, s := range sites {
+		m[s] = true
+	}
+	return m
 }
 
 type Stats struct {
@@ -908,7 +920,14 @@ func (st *Stats) record(cfg Config, x *Exec, body func(x *Exec), conflicts map[s
 			panic(fmt.Sprintf("vsched: replay of a violating schedule diverged (engine error)\nfirst: %s\nsecond: %s", msg, msg2))
 		}
 		if len(st.Violations) < 50 {
-			st.Violations = append(st.Violations, Violation{Desc: msg, Choices: x.Choices(), Outcome: o})
+			var cs []string
+			for site, on := range conflicts {
+				if on {
+					cs = append(cs, site)
+				}
+			}
+			slices.Sort(cs)
+			st.Violations = append(st.Violations, Violation{Desc: msg, Choices: x.Choices(), Outcome: o, Conflicts: cs})
 		}
 	} else if st.Executions%257 == 0 {
 		y := RunOnce(x.choices, cfg.Horizon, conflicts, cfg.Reset, body)
